@@ -382,7 +382,7 @@ theorem parse_rep_run (g : NodeGrammar) (uni : Uni) (fuel : Nat) (inh : Bool) (s
   · cases h
   · next i1 m1 vs hl =>
     injection h with a b c; subst a b c
-    obtain ⟨l, mL, hr, ho, hmin, hmx, hstop⟩ := repLoop_unitP_ok _ _ _ _ _ _ _ _ _ _ _ _ _ _ hl
+    obtain ⟨l, mL, hr, ho, hmin, hmx, hstop⟩ := repLoop_unitP_ok _ _ _ _ _ _ _ 0 _ _ [] _ _ _ rfl hl
     simp only [List.reverse_nil, List.nil_append] at ho
     subst ho
     simp only [Nat.zero_add] at hstop hmin
@@ -671,7 +671,7 @@ theorem parse_inh_congr (g : NodeGrammar) (uni : Uni) (a b : Bool) :
       simp only [parse, h]
     | array k x =>
       simp only [Node.flagsAll] at h
-      simp only [parse, ih x h]
+      simp only [parse, arrayTryInto_arrayLoop, ih x h]
     | pair x y =>
       simp only [Node.flagsAll] at h
       simp only [parse, ih x h.1, ih y h.2]
